@@ -1,25 +1,36 @@
 #!/bin/bash
 # Must-fail selftest: every patch under mutants/ must turn its property's check from exit 0 into exit 1.
-# usage: selftest/run.sh [pattern]
+# usage: selftest/run.sh [pattern]      (SELFTEST_JOBS=4 mutants are checked concurrently)
 set -u
 V=/verif
 pat="${1:-}"
-fail=0
+jobs="${SELFTEST_JOBS:-4}"
 # frozen snapshot of /repo: the mutants are derived from it, so /repo may be edited while the selftest runs
 BASE=$(mktemp -d /tmp/govc-selftest-base-XXXXXX)
 rsync -a --exclude .git ${GOVC_BASE_REPO:-/repo}/ $BASE/
-trap 'rm -rf $BASE' EXIT
-for p in $V/selftest/mutants/*${pat}*.patch; do
+RES=$(mktemp -d /tmp/govc-selftest-res-XXXXXX)
+trap 'rm -rf $BASE $RES /tmp/govc-mut-evidence-*' EXIT
+one() {
+  p=$1
   name=$(basename $p .patch)
   prop=${name%%-*}
   d=$(mktemp -d /tmp/govc-mut-XXXXXX)
   rsync -a $BASE/ $d/
-  if ! (cd $d && patch -s -p1 < $p); then echo "SELFTEST $name: patch does not apply"; fail=1; rm -rf $d; continue; fi
-  if ! (cd $d && GOFLAGS=-mod=mod go build ./... 2>/dev/null); then echo "SELFTEST $name: mutant does not compile"; fail=1; rm -rf $d; continue; fi
-  out=$(GOVC_REPO=$d GOVC_EVIDENCE=/tmp/govc-mut-evidence $V/bin/govc check --property $prop --tier quick 2>&1)
+  if ! (cd $d && patch -s -p1 < $p); then echo "SELFTEST $name: patch does not apply" > $RES/$name; echo 1 > $RES/$name.rc; rm -rf $d; return; fi
+  if ! (cd $d && GOFLAGS=-mod=mod go build ./... 2>/dev/null); then echo "SELFTEST $name: mutant does not compile" > $RES/$name; echo 1 > $RES/$name.rc; rm -rf $d; return; fi
+  out=$(GOVC_REPO=$d GOVC_EVIDENCE=/tmp/govc-mut-evidence-$name $V/bin/govc check --property $prop --tier quick 2>&1)
   rc=$?
-  if [ $rc -eq 1 ]; then echo "SELFTEST $name: caught ($(echo "$out" | grep -c '^VIOLATION') violation lines; $(echo "$out" | grep '^  obligation' | head -1))"; else echo "SELFTEST $name: MISSED (exit $rc)"; echo "$out" | tail -3; fail=1; fi
-  rm -rf $d
+  if [ $rc -eq 1 ]; then echo "SELFTEST $name: caught ($(echo "$out" | grep -c '^VIOLATION') violation lines; $(echo "$out" | grep -E '^  obligation|^  proved' | head -1 | cut -c1-200))" > $RES/$name; echo 0 > $RES/$name.rc
+  else echo "SELFTEST $name: MISSED (exit $rc) $(echo "$out" | tail -2 | tr '\n' ' ' | cut -c1-300)" > $RES/$name; echo 1 > $RES/$name.rc; fi
+  rm -rf $d /tmp/govc-mut-evidence-$name
+  cat $RES/$name
+}
+for p in $V/selftest/mutants/*${pat}*.patch; do
+  while [ $(jobs -r | wc -l) -ge $jobs ]; do sleep 1; done
+  one $p &
 done
-rm -rf /tmp/govc-mut-evidence
+wait
+fail=0
+for f in $RES/*.rc; do [ "$(cat $f)" != "0" ] && fail=1; done
+echo "SELFTEST done: $(ls $RES/*.rc | wc -l) mutants, $(grep -l '^0' $RES/*.rc | wc -l) caught"
 exit $fail
